@@ -422,13 +422,30 @@ def replay_codes(ctx, spec, f):
     if kind == "q":
         if "in_v" not in ins:
             return {"reproduced": None, "detail": "inputs not found"}
-        # a grey pixel v (R=G=B=v) drives Y' = v exactly in real arithmetic; chroma 0
-        px = ["%x" % ins["in_v"]] * 3
+        import struct
+        v = F(struct.unpack("<f", struct.pack("<I", ins["in_v"]))[0]) if ins["in_v"] < (1 << 32) else F(0)
+        fbits = lambda x: "%x" % struct.unpack("<I", struct.pack("<f", float(x)))[0]
+        maxv = (1 << bd) - 1
         for mc in MC_STD:
-            r = native.replay_native(ctx, "yuv", ["enc", T, bd, int(full), mc] + px, both_profiles=False)
-            outs.append(r)
-            rep = rep or bool(r.get("reproduced"))
-        return {"reproduced": rep, "detail": "; ".join(o["detail"] for o in outs if o.get("reproduced"))[:600] or "end-to-end property holds natively for a grey pixel at the counterexample value", "kind": "yuv", "args": outs[0]["args"]}
+            H = h273_inverse(mc)
+            # the kernel input v as luma (grey pixel), as Cb and as Cr of an otherwise mid-grey pixel
+            for yuv in ([v, 0, 0], [F(1, 2), v, 0], [F(1, 2), 0, v]):
+                rgb = [sum(H[i][j] * yuv[j] for j in range(3)) for i in range(3)]
+                r = native.replay_native(ctx, "yuv", ["enc", T, bd, int(full), mc] + [fbits(c) for c in rgb], both_profiles=False)
+                outs.append(r)
+                if r.get("reproduced"):
+                    return r
+            # and as a code of the round trip (C08): the code whose normalised value is nearest to v
+            for chroma in (False, True):
+                s_, o_ = quant_consts(bd, full, chroma)
+                k = min(maxv, max(0, int(round(float(v * s_ + o_)))))
+                mid = 1 << (bd - 1)
+                for trip in ((k, mid, mid), (mid, k, mid), (mid, mid, k)):
+                    r = native.replay_native(ctx, "yuv", ["rt", T, bd, int(full), mc] + list(trip), both_profiles=False)
+                    outs.append(r)
+                    if r.get("reproduced"):
+                        return r
+        return {"reproduced": False, "detail": "end-to-end properties (C02 encode, C08 round trip) hold natively around the counterexample value for all 7 matrices", "kind": "yuv", "args": outs[0]["args"]}
     return {"reproduced": None, "detail": "no replay recipe"}
 
 
